@@ -79,6 +79,56 @@ WStmt(s) ==
 
 WProgram(bs) == All([i \in 1..Len(bs) |-> WBlock(bs[i])])
 
+-----------------------------------------------------------------------------
+(* The full presentation log: every method of the expression-visitor interface the runner (or a default method) invokes, in    *)
+(* order - composite nodes as well as leaves.  A visitor that overrides a composite method (say visit_array_pop_expr) and then   *)
+(* continues with the default traversal sees exactly this sequence.  Labels: lhs rhs pnrhs plit pushrhs pop elist expr prim bin   *)
+(* unary sub call ident name, and the leaf labels of the walk above.                                                              *)
+RECURSIVE Flat(_)
+Flat(ss) == IF ss = <<>> THEN <<>> ELSE Head(ss) \o Flat(Tail(ss))
+SName(n) == <<"name", "id:" \o n>>
+SIdent(e) == <<"ident">> \o (IF e.e = "pro" THEN <<"pro">> ELSE SName(e.n))
+RECURSIVE SE(_)          \* a node in an Expression position
+RECURSIVE SP(_)          \* a node in a PrimaryExpression position
+SEs(es) == Flat([i \in 1..Len(es) |-> SE(es[i])])
+SP(e) == <<"prim">> \o
+  (CASE e.e = "lit" -> <<LitLabel(e.v)>>
+     [] e.e \in {"var", "pro"} -> SIdent(e)
+     [] e.e = "idx" -> <<"sub">> \o SP(e.a) \o SP(e.k)
+     [] e.e = "call" -> <<"call">> \o SName(e.f) \o SEs(e.args)
+     [] e.e = "roll" -> <<"pop">> \o SP(e.a))
+SE(e) == <<"expr">> \o
+  (CASE e.e = "bin" -> <<"bin">> \o SE(e.l) \o <<"op:" \o e.op, "elist">> \o SEs(e.r)
+     [] e.e = "un" -> <<"unary", "un:" \o e.op>> \o SE(e.x)
+     [] OTHER -> SP(e))
+SLhs(e) == <<"lhs">> \o (IF e.e = "idx" THEN <<"sub">> \o SP(e.a) \o SP(e.k) ELSE SIdent(e))
+SOptLhs(e) == IF e.e = "none" THEN <<>> ELSE SLhs(e)
+SPlit(e) == <<"plit">> \o [i \in 1..Len(e.elems) |-> CASE e.elems[i].k = "w" -> "pw:" \o e.elems[i].s [] e.elems[i].k = "s" -> "ps:" \o e.elems[i].s [] OTHER -> "pd"]
+RECURSIVE SS(_)
+SB(ss) == Flat([i \in 1..Len(ss) |-> SS(ss[i])])
+SS(s) ==
+  CASE s.s = "assign" -> SLhs(s.dest) \o (IF s.op = "none" THEN <<>> ELSE <<"op:" \o s.op>>) \o <<"rhs", "elist">> \o SEs(s.vals)
+    [] s.s = "pnum"   -> SLhs(s.dest) \o <<"pnrhs">> \o (IF s.e.e = "plit" THEN SPlit(s.e) ELSE SE(s.e))
+    [] s.s = "pstr"   -> SLhs(s.dest)
+    [] s.s = "if"     -> SE(s.c) \o SB(s.th) \o (IF s.hasElse THEN SB(s.el) ELSE <<>>)
+    [] s.s \in {"while", "until"} -> SE(s.c) \o SB(s.body)
+    [] s.s \in {"inc", "dec"} -> SIdent(s.dest)
+    [] s.s = "listen" -> SOptLhs(s.dest)
+    [] s.s \in {"say", "return", "turn"} -> SE(s.e)
+    [] s.s = "mut"    -> SP(s.operand) \o SOptLhs(s.dest) \o (IF s.param.e = "none" THEN <<>> ELSE SE(s.param))
+    [] s.s \in {"break", "continue"} -> <<>>
+    [] s.s = "rock"   -> SP(s.a) \o (IF s.vals = <<>> THEN <<>>
+                                      ELSE <<"pushrhs">> \o (IF s.vals[1].e = "plit" THEN SPlit(s.vals[1]) ELSE <<"elist">> \o SEs(s.vals)))
+    [] s.s = "rollst" -> <<"pop">> \o SP(s.a) \o SOptLhs(s.dest)
+    [] s.s = "func"   -> SName(s.name) \o Flat([i \in 1..Len(s.ps) |-> SName(s.ps[i])]) \o SB(s.body)
+    [] s.s = "callst" -> <<"call">> \o SName(s.f) \o SEs(s.args)
+SProgram(bs) == Flat([i \in 1..Len(bs) |-> SB(bs[i])])
+
+(* the leaf callbacks are the presentation log without its composite labels *)
+Composite == {"lhs", "rhs", "pnrhs", "plit", "pushrhs", "pop", "elist", "expr", "prim", "bin", "unary", "sub", "call", "ident", "name"}
+LeavesOf(log) == SelectSeq(log, LAMBDA l : l \notin Composite)
+PresentationCoversWalk(bs) == LeavesOf(SProgram(bs)) = WProgram(bs).log
+
 (* the inventory of visitable leaves, by generic recursion over all fields (independent of the walk order) *)
 RECURSIVE NodesE(_)
 RECURSIVE NodesS(_)
